@@ -75,6 +75,16 @@ def _run_canary(item: Tuple[str, str]) -> Dict[str, Any]:
     failed = sorted({o["name"] for o in d["obligations"] if o["status"] in ("violated", "known_finding")})
     expected = c["expect"]
     hit = [n for n in failed if any(e in n for e in expected)]
+    if not hit and c.get("via"):
+        # modular detection: the change is inside a callee whose own contract job catches it
+        interp.OVERLAY[c["module"]] = src.replace(c["old"], c["new"])
+        try:
+            d2 = _run_job(c["via"])
+        finally:
+            interp.OVERLAY.clear()
+        failed2 = sorted({o["name"] for o in d2["obligations"] if o["status"] in ("violated", "known_finding")})
+        hit = [n for n in failed2 if any(e in n for e in c.get("via_expect", expected))]
+        failed = failed + failed2
     return {
         "canary": cid,
         "status": "caught" if hit else ("error" if d.get("error") else "MISSED"),
@@ -153,7 +163,7 @@ def main() -> int:
     for d in results:
         if d.get("error"):
             errors.append(f"{d['job']}: {d['error'][:600]}")
-        mine = [o for o in d["obligations"] if o["name"].startswith(prop + ":")]
+        mine = [o for o in d["obligations"] if o["name"].startswith(prop + ":") or jobs[d["job"]].shared]
         for o in mine:
             o["job"] = d["job"]
             obligations.append(o)
